@@ -690,10 +690,75 @@ end
 
 /-! ### pickling a document (bs4/__init__.py:505-532) -/
 
-/-- how many references to tree objects the state dict `__getstate__` returns still holds: whatever the parse left on
-    the parser stacks, plus the root's own links when it is linked into the element chain and they are not dropped -/
+/-- what an attribute of the document object holds, as far as pickling cares: only flat values (None, numbers,
+    strings, classes, the builder, empty containers), the document object itself (possibly in a list: pickle's memo
+    stops there), or tree objects (`k` of them, directly or inside a container) -/
+inductive Val where
+  | flat
+  | self
+  | tree (k : Nat)
+deriving Repr, DecidableEq
+
+/-- the attributes of the document object the mirror distinguishes -/
+inductive Key where
+  | contents | nextElement | nextSibling | previousElement | previousSibling | parent
+  | tagStack | currentTag | preserveStack | containerStack | mostRecent
+  | builder | markup | currentData | openTagCounter
+deriving Repr, DecidableEq
+
+def Key.name : Key → String
+  | .contents => "contents" | .nextElement => "next_element" | .nextSibling => "next_sibling"
+  | .previousElement => "previous_element" | .previousSibling => "previous_sibling" | .parent => "parent"
+  | .tagStack => "tagStack" | .currentTag => "currentTag" | .preserveStack => "preserve_whitespace_tag_stack"
+  | .containerStack => "string_container_stack" | .mostRecent => "_most_recent_element"
+  | .builder => "builder" | .markup => "markup" | .currentData => "current_data" | .openTagCounter => "open_tag_counter"
+
+structure Field where
+  key : Key
+  val : Val
+deriving Repr, DecidableEq
+
+def Val.ofRefs (k : Nat) (orElse : Val := .flat) : Val := if k = 0 then orElse else .tree k
+
+/-- `self.__dict__` of a BeautifulSoup object: its parser-side attributes after a parse that left `parser`
+    (bs4/__init__.py:666-680 `reset`, :786-824), the Tag attributes of the root (`contents`, the five links), and the
+    rest (flat). `hasKids`: the document has children; `rootLinked`: `next_element` points into the tree (set by
+    `_insert` at position 0 — `soup.insert(0, …)`, or the `append`s of `__deepcopy__` on a copy); `mostRecent`:
+    `_most_recent_element` still names the last parsed element (any parse of non-empty markup). -/
+def soupDict (parser : PState) (hasKids rootLinked mostRecent : Bool) : List Field :=
+  [ ⟨.contents, if hasKids then .tree 1 else .flat⟩,
+    ⟨.nextElement, if rootLinked then .tree 1 else .flat⟩,
+    ⟨.nextSibling, .flat⟩, ⟨.previousElement, .flat⟩, ⟨.previousSibling, .flat⟩, ⟨.parent, .flat⟩,
+    ⟨.tagStack, Val.ofRefs parser.stack.length .self⟩,                  -- `[self] + open tags`
+    ⟨.currentTag, Val.ofRefs parser.stack.length .self⟩,                -- `tagStack[-1]`
+    ⟨.preserveStack, Val.ofRefs parser.pre.length⟩,
+    ⟨.containerStack, Val.ofRefs parser.sc.length⟩,
+    ⟨.mostRecent, if mostRecent then .tree 1 else .flat⟩,
+    ⟨.builder, .flat⟩, ⟨.markup, .flat⟩, ⟨.currentData, .flat⟩, ⟨.openTagCounter, .flat⟩ ]
+
+/-- `BeautifulSoup.__getstate__` (bs4/__init__.py:505-526), statement by statement on the dict -/
+def getstateImpl (cfg : Cfg) (d : List Field) : List Field :=
+  -- d = dict(self.__dict__); the builder is replaced by its class when it is not picklable (flat either way)
+  -- d["contents"] = []; d["markup"] = self.decode()
+  let d1 := d.map (fun f => if f.key == .contents || f.key == .markup then ⟨f.key, .flat⟩ else f)
+  -- for link in (…): d[link] = None              (the repair; absent in the unrepaired form)
+  let d2 := if cfg.dropLinks then
+      d1.map (fun f => if f.key == .nextElement || f.key == .nextSibling || f.key == .previousElement ||
+                          f.key == .previousSibling then ⟨f.key, .flat⟩ else f)
+    else d1
+  -- if "_most_recent_element" in d: del d["_most_recent_element"]
+  d2.filter (fun f => f.key != .mostRecent)
+
+def Val.refs : Val → Nat
+  | .tree k => k
+  | _ => 0
+
+/-- how many references to tree objects a dict holds -/
+def dictRefs (d : List Field) : Nat := (d.map (fun f => f.val.refs)).sum
+
+/-- how many references to tree objects the state dict `__getstate__` returns still holds -/
 def stateRefs (cfg : Cfg) (rootLinked : Bool) (parser : PState) : Nat :=
-  (leftover parser).length + (if rootLinked && !cfg.dropLinks then 1 else 0)
+  dictRefs (getstateImpl cfg (soupDict parser true rootLinked true))
 
 /-- default pickling of the state dict: the pickler recurses into every object it can reach. From ONE tree object it
     reaches every other one through `next_element`/`contents`/`parent`: at least one nested `save` per element. With
